@@ -132,6 +132,8 @@ def run(ctx, res):
             res.count('feat:' + k)
     for src, items in gen_lua.word_programs(rng):
         cases.append((src, rng.choice(['default', 'keepall']), None, 'word-program'))
+    for src in gen_lua.lookalike_programs():
+        cases.append((src, rng.choice(['default', 'keepall']), None, 'lookalike-line'))
     seps = [b'', b' ', b'\n', b' --c\n', b'--[[c]]']
     for a in REPS:
         for b in REPS:
